@@ -69,6 +69,11 @@ type mutationMap struct {
 	signerID      string
 	kv            map[string]string // the keys and values we populate
 
+	// partial is whether the blob could not be fully indexed because a
+	// blob it depends on is not indexed yet. Its "missing" rows, noted
+	// while populating, must then outlive the commit.
+	partial bool
+
 	// We record if we get a delete claim, so we can update
 	// the deletes cache right after committing the mutation.
 	//
@@ -292,7 +297,9 @@ func (ix *Index) ReceiveBlob(ctx context.Context, blobRef blob.Ref, source io.Re
 
 	// TODO(bradfitz): this removeAllMissingEdges need not hold ix.Lock
 	// and could be done in the background.
-	ix.removeAllMissingEdges(blobRef)
+	if !mm.partial {
+		ix.removeAllMissingEdges(blobRef)
+	}
 
 	// TODO(bradfitz): log levels? These are generally noisy
 	// (especially in tests, like search/handler_test), but I
@@ -388,6 +395,7 @@ func (ix *Index) populateMutationMap(ctx context.Context, fetcher *missTrackFetc
 	var haveVal string
 	if errors.Is(err, errMissingDep) {
 		haveVal = fmt.Sprintf("%d", sniffer.Size())
+		mm.partial = true
 	} else {
 		haveVal = fmt.Sprintf("%d|indexed", sniffer.Size())
 	}
